@@ -134,6 +134,49 @@ DESC.update({
  "C20-r3b": ("cursor set to last dumped version + 1", "the first commit after a run is a single-transaction operation (delete dataset, new namespace)"),
 })
 
+DESC.update({
+ "C01-r4a": ("the batch-local predecessor is not updated when a version equals the committed one", "committed X, then one batch carrying the id as [Y, X, Y]"),
+ "C01-r4b": ("scoped lookup seeks to the first NAMED dataset of the scope", "same id in two datasets, lookup scoped to both with the later-created one named first"),
+ "C02-r4a": ("toJsonValue shortcut for arrays whose elements look like JSON already", "array of arrays of Go ints (transform / job sink / store API) written twice"),
+ "C02-r4b": ("JSON-LD rendering of GET changes ignores latestOnly", "Accept: application/ld+json with latestOnly=true on an entity with several versions"),
+ "C03-r4a": ("compaction walks an entity's versions across all datasets", "same entity with the same reference in two datasets, then a compaction (C12's subject; caught by C12)"),
+ "C03-r4b": ("a given dataset scope is no longer checked against deleted datasets", "scoped paged query, a dataset of the scope deleted between pages (caught by C07's continued-query operation)"),
+ "C04-r4a": ("commitIDTxn returns early when the store's own id-transaction pointer is nil, before delegating to the parent", "transaction from a contextual store with a new identifier, kill"),
+ "C04-r4b": ("assertIDForURI looks URIs up in a fresh read transaction instead of the rolling id transaction", "one new identifier in two datasets of a transaction / two overlapping writers"),
+ "C05-r4a": ("latest-only feed page reads outside its own snapshot", "a batch commits while a latest-only page is produced"),
+ "C05-r4b": ("rolling id transaction committed after idmux is released", "two writers on different datasets with the same new identifier"),
+ "C06-r4a": ("as C03-r3b (decodeCont shares one struct)", "continuation request with several tokens (HTTP only; caught by C03's HTTP face)"),
+ "C06-r4b": ("incoming-index tombstone stamped with the previous version's time", "R references X, instant t, R updated without the reference, inverse query of X as of t"),
+ "C07-r4a": ("rename target check after the dataset object was renamed in memory", "refused rename onto an existing name, delete of the source, restart"),
+ "C07-r4b": ("Store.Open recomputes the dataset-id counter from the stored datasets", "delete the newest dataset, restart, create a dataset"),
+ "C08-r4a": ("fullsync LatestOnly source drops deleted entities from a page", "a page made up only of deleted latest versions, followed by further changes"),
+ "C08-r4b": ("datasetSink.startFullSync skips the start when the dataset is still in its own fullsync", "failed fullsync run, source loses an entity without a tombstone, next run of the same job object"),
+ "C09-r4a": ("refreshFullSyncLease cancels the lease before comparing the sync id", "running sync, refused foreign request, silence beyond the lease, late end"),
+ "C09-r4b": ("StartFullSyncWithLease no longer bumps the sync generation", "fullsync job running, HTTP start on the same dataset, job end"),
+ "C10-r4a": ("HTTP transform response decoded with UseNumber", "HttpTransform without context, numeric property, second pass of a fullsync job"),
+ "C10-r4b": ("SupportContext converter drops the deleted flag", "HttpTransform with SupportContext and a deletion in the source"),
+ "C11-r4a": ("Scheduler.Start schedules stored jobs without AddJob (no verify)", "job with a log handler, hub restart, trigger fires twice (needs the scheduler's own start-up path, which the harness replaces)"),
+ "C11-r4b": ("AsEntity checks its argument up front instead of recovering", "AsEntity on {id, props, refs: null} in a javascript transform"),
+ "C12-r4a": ("CompactAsync sets currentDataset before the running check", "second compaction request for another dataset while one runs, writer inside the flush window"),
+ "C12-r4b": ("pending list flushed before the current instruction is appended", "kill between two flushes of a compaction"),
+ "C13-r4a": ("ExecuteTransaction commits the id transaction only when an entity id was new", "transaction with known entities and a never-seen reference target, restart"),
+ "C13-r4b": ("'ns<N>:local' returned unchanged when the hub can expand it, before the batch context is consulted", "a posted document binding ns3 to another namespace (hub-to-hub sync)"),
+ "C14-r4a": ("event bus registers existing datasets under dataset.dataset.<name> at start-up", "on-change job on a dataset that existed before a restart (needs the real event bus)"),
+ "C14-r4b": ("Scheduler.Start re-stores definitions without verify (retryDelay divided unscaled)", "job with a reRun handler, one restart, compare definitions"),
+ "C15-r4a": ("parser decodes numbers with UseNumber and drops the range error", "a literal beyond float64 range (1e999)"),
+ "C15-r4b": ("HTTP dataset sink caches the context of its first batch", "same job object sends again after the hub learned a namespace"),
+ "C16-r4a": ("dataset list skips the ACL filter for clients with a broad allow", "allow /datasets/* plus a narrower deny, GET /datasets"),
+ "C16-r4b": ("signing algorithm checked by type (any RSA) instead of by name", "token signed RS384/RS512 with the right key"),
+ "C17-r4a": ("one pipeline shared by all triggers of a job type", "two triggers of the same job type with different log handlers"),
+ "C17-r4b": ("wrappedSink records the error of every refused call", "size-limited or transiently failing sink: nothing rejected in the end"),
+ "C18-r4a": ("join-query input allocated once per join level and aliased by the previous-run lookup", "two changed dependency entities in one page, the later one re-pointed since the previous run"),
+ "C18-r4b": ("join predicate ids (and the 'not yet' error) cached on the source object", "incremental run before the join predicate was ever used in the hub (the shared harness world has used every predicate)"),
+ "C19-r4a": ("as C05-r3a (refused batch discards the shared id transaction)", "refused batch next to a writer, same ids stored again"),
+ "C19-r4b": ("rename/delete read the meta-entity without the core.Dataset scope", "a copy of the meta-entity in another dataset, then rename"),
+ "C20-r4a": ("LoadLastID reads the file StoreLastID writes + first run of a process truncates the backup file", "write, backup, restart, write, backup, restore"),
+ "C20-r4b": ("a native-mode hub takes over a foreign location that has no .kv file", "location owned by an rsync-mode hub"),
+})
+
 rows = []
 for d in sorted(glob.glob('/verif/seeded/*/meta.json')):
     m = json.load(open(d))
@@ -141,7 +184,7 @@ for d in sorted(glob.glob('/verif/seeded/*/meta.json')):
     what, needs = DESC.get(k, ("", ""))
     conf = "yes" if m.get('confirmed') else "no (suite fails)"
     first = "caught" if m.get('caught_before_strengthening', m.get('caught_by_quick')) else "MISSED"
-    if ('r2' in k or 'r3' in k):
+    if ('r2' in k or 'r3' in k or 'r4' in k):
         if 'baseline_verif_commit' not in m:
             first = "?"
         else:
